@@ -256,6 +256,8 @@ func runC19(c *core.Ctx) {
 		c.Floor("codec.errdrop", 3)
 	}
 	checkFullRead(c)
+	checkPoolAlias(c)
+	checkFrameReadExact(c)
 }
 
 // frameConstants: constants of type FrameType emitted by the encoder (stored into Frame.frameType) and
@@ -870,6 +872,7 @@ func checkCodecBounds(c *core.Ctx, funcs []*ssa.Function) {
 			for _, in := range b.Instrs {
 				var base ssa.Value
 				what := ""
+				need := int64(0)
 				switch t := in.(type) {
 				case *ssa.Slice:
 					lo, hasLo := int64(0), false
@@ -882,11 +885,16 @@ func checkCodecBounds(c *core.Ctx, funcs []*ssa.Function) {
 					}
 					if (hasLo && lo > 0) || (hasHi && hi > 0) {
 						base = t.X
+						need = lo
+						if hi > need {
+							need = hi
+						}
 						what = fmt.Sprintf("slice[%v:%v]", map[bool]any{true: lo, false: ""}[hasLo], map[bool]any{true: hi, false: ""}[hasHi])
 					}
 				case *ssa.IndexAddr:
 					if k, ok := core.ConstIntValue(t.Index); ok {
 						base = t.X
+						need = k + 1
 						what = fmt.Sprintf("index[%d]", k)
 					}
 				}
@@ -894,17 +902,35 @@ func checkCodecBounds(c *core.Ctx, funcs []*ssa.Function) {
 					continue
 				}
 				fromRead := false
+				var peek *ssa.Call
 				for x := range core.BackSlice(base) {
-					if call, ok := x.(*ssa.Call); ok && call.Common().StaticCallee() == read {
-						fromRead = true
+					if call, ok := x.(*ssa.Call); ok {
+						if call.Common().StaticCallee() == read {
+							fromRead = true
+						}
+						if cal := call.Common().StaticCallee(); cal != nil && cal.Name() == "Peek" && cal.Pkg != nil && cal.Pkg.Pkg.Path() == "bufio" {
+							fromRead = true
+							peek = call
+						}
 					}
 				}
 				if !fromRead {
 					continue
 				}
 				key := core.FnName(fn) + "|" + what
-				if lenGuarded(fn, base, b) {
-					c.Discharge("codec.bounds", key, in.Pos(), "dominated by a test of len() of the same bytes")
+				got := lenLowerBound(fn, base, b)
+				// Peek(n) returns exactly n bytes when its error is nil
+				if peek != nil {
+					if n, ok := core.ConstIntValue(peek.Common().Args[1]); ok {
+						for _, e := range core.ErrorResults(peek) {
+							if core.DominatedByNil(e, b, true) && n > got {
+								got = n
+							}
+						}
+					}
+				}
+				if got >= need {
+					c.Discharge("codec.bounds", key, in.Pos(), fmt.Sprintf("dominated by a test that implies at least %d byte(s)", got))
 				} else {
 					c.Report("codec.bounds", key, in.Pos(), fmt.Sprintf("%s on the bytes of a frame whose size comes from the input, with no dominating length test: a short frame makes the decoder panic (index out of range)", what))
 				}
@@ -912,6 +938,76 @@ func checkCodecBounds(c *core.Ctx, funcs []*ssa.Function) {
 		}
 	}
 	c.Floor("codec.bounds", 3)
+}
+
+// lenLowerBound: the largest lower bound of len(base) implied by a comparison of len(base) with a constant on an edge
+// that dominates b.
+func lenLowerBound(fn *ssa.Function, base ssa.Value, b *ssa.BasicBlock) int64 {
+	best := int64(0)
+	for _, blk := range fn.Blocks {
+		iff, ok := blk.Instrs[len(blk.Instrs)-1].(*ssa.If)
+		if !ok {
+			continue
+		}
+		bo, ok := iff.Cond.(*ssa.BinOp)
+		if !ok {
+			continue
+		}
+		isLen := func(v ssa.Value) bool {
+			call, ok := v.(*ssa.Call)
+			if !ok {
+				return false
+			}
+			bi, ok := call.Common().Value.(*ssa.Builtin)
+			return ok && bi.Name() == "len" && len(call.Common().Args) == 1 && (call.Common().Args[0] == base || sameBaseValue(call.Common().Args[0], base))
+		}
+		op := bo.Op
+		var k int64
+		var isK bool
+		switch {
+		case isLen(bo.X):
+			k, isK = core.ConstIntValue(bo.Y)
+		case isLen(bo.Y):
+			k, isK = core.ConstIntValue(bo.X)
+			if m, ok := mirrored[op]; ok {
+				op = m
+			}
+		default:
+			continue
+		}
+		if !isK {
+			continue
+		}
+		// bound implied on the true edge (index 0) and on the false edge (index 1)
+		var onTrue, onFalse int64
+		switch op {
+		case token.LSS:
+			onFalse = k
+		case token.LEQ:
+			onFalse = k + 1
+		case token.GTR:
+			onTrue = k + 1
+		case token.GEQ:
+			onTrue = k
+		case token.EQL:
+			onTrue = k
+			if k == 0 {
+				onFalse = 1
+			}
+		case token.NEQ:
+			onFalse = k
+			if k == 0 {
+				onTrue = 1
+			}
+		}
+		if onTrue > best && core.EdgeDominates(blk, 0, b) {
+			best = onTrue
+		}
+		if onFalse > best && core.EdgeDominates(blk, 1, b) {
+			best = onFalse
+		}
+	}
+	return best
 }
 
 // lenGuarded: some branch condition that dominates b (on either edge) involves len(base).
@@ -1035,5 +1131,193 @@ func checkFullRead(c *core.Ctx) {
 	}
 	if n == 0 {
 		c.MissingAnchor("codec.fullread", "no Read call in ast/codec")
+	}
+}
+
+// checkPoolAlias (codec.poolalias): the encoder's frames alias buffers that were already handed back to sync.Pool
+// (every encode* does `defer encodePool.Put(buf)` and returns &Frame{buffer: buf.Bytes()}). That is only sound while a
+// frame is serialised (Encode()) or returned before anything can take the buffer out of the pool again: a frame must
+// not be stored in a container, and no call that can reach Pool.Get may lie between its production and its use.
+func checkPoolAlias(c *core.Ctx) {
+	prog := c.Prog
+	funcs := prog.ModuleFuncs("ast/codec")
+	// functions that can reach sync.Pool.Get
+	gets := map[*ssa.Function]bool{}
+	for changed := true; changed; {
+		changed = false
+		for _, fn := range funcs {
+			if gets[fn] {
+				continue
+			}
+			for _, b := range fn.Blocks {
+				for _, in := range b.Instrs {
+					cal := core.StaticCallee(in)
+					if cal == nil {
+						continue
+					}
+					if (cal.Name() == "Get" && cal.Pkg != nil && cal.Pkg.Pkg.Path() == "sync") || gets[cal] {
+						gets[fn] = true
+					}
+				}
+			}
+			if gets[fn] {
+				changed = true
+			}
+		}
+	}
+	isFrame := func(t types.Type) bool {
+		return core.NamedTypeName(derefType(t)) == "Frame" && strings.HasSuffix(core.NamedTypePkgName(derefType(t)), "codec.Frame")
+	}
+	n := 0
+	for _, fn := range funcs {
+		for _, b := range fn.Blocks {
+			for idx, in := range b.Instrs {
+				call, ok := in.(*ssa.Call)
+				if !ok || !isFrame(call.Type()) {
+					continue
+				}
+				cal := call.Common().StaticCallee()
+				if cal == nil || !gets[cal] || call.Referrers() == nil {
+					continue
+				}
+				n++
+				key := fmt.Sprintf("%s|frame of %s#%d", core.FnName(fn), cal.Name(), n)
+				bad := ""
+				for _, r := range *call.Referrers() {
+					switch u := r.(type) {
+					case *ssa.Store:
+						if u.Val == ssa.Value(call) {
+							switch u.Addr.(type) {
+							case *ssa.IndexAddr, *ssa.FieldAddr:
+								bad = "it is stored in a container (" + prog.Loc(u.Pos()) + ")"
+							}
+						}
+					case *ssa.MapUpdate:
+						bad = "it is stored in a map"
+					case *ssa.Phi, *ssa.Return, *ssa.DebugRef:
+					case ssa.Instruction:
+						// a use: no pool-reaching call between production and use
+						if between := poolCallBetween(b, idx, u, gets); between != "" {
+							bad = "between its production and its use at " + prog.Loc(u.Pos()) + " the encoder calls " + between + ", which takes buffers out of the pool again"
+						}
+					}
+				}
+				if bad == "" {
+					c.Discharge("codec.poolalias", key, in.Pos(), "serialised or returned before the pool can hand its buffer out again")
+				} else {
+					c.Report("codec.poolalias", key, in.Pos(), fmt.Sprintf("the frame returned by %s aliases a buffer that is already back in sync.Pool, and %s: the bytes of this frame are overwritten before they are written out (an argument or operand is replaced by a later one)", cal.Name(), bad))
+				}
+			}
+		}
+	}
+	c.Floor("codec.poolalias", 40)
+}
+
+// poolCallBetween: a call that can reach Pool.Get on some path from instruction index from (exclusive) in block b to use.
+func poolCallBetween(b *ssa.BasicBlock, from int, use ssa.Instruction, gets map[*ssa.Function]bool) string {
+	found := ""
+	seen := map[*ssa.BasicBlock]bool{}
+	var walk func(blk *ssa.BasicBlock, start int, trail string) bool
+	walk = func(blk *ssa.BasicBlock, start int, trail string) bool {
+		for _, in := range blk.Instrs[start:] {
+			if in == use {
+				if trail != "" {
+					found = trail
+				}
+				return true
+			}
+			if cal := core.StaticCallee(in); cal != nil && gets[cal] {
+				if trail == "" {
+					trail = cal.Name()
+				}
+			}
+		}
+		for _, s := range blk.Succs {
+			if seen[s] {
+				continue
+			}
+			seen[s] = true
+			walk(s, 0, trail)
+		}
+		return false
+	}
+	walk(b, from+1, "")
+	return found
+}
+
+// checkFrameReadExact (codec.readexact): Frame.Read hands back exactly `size` bytes: every successful return is
+// dominated by a comparison of the accumulated Read counts with the frame size (or reads with io.ReadFull/ReadAll).
+func checkFrameReadExact(c *core.Ctx) {
+	fn := c.Prog.SSAFunc("ast/codec", "Frame.Read")
+	if fn == nil {
+		return
+	}
+	n := 0
+	for _, rs := range core.ReturnSites(fn) {
+		if len(rs.Results) != 2 || !core.IsNilConst(rs.Results[1]) {
+			continue
+		}
+		n++
+		key := "Frame.Read|return@" + retLabel(fn, rs.Ret)
+		// the empty frame
+		emptyOK := false
+		exact := false
+		for _, blk := range fn.Blocks {
+			iff, ok := blk.Instrs[len(blk.Instrs)-1].(*ssa.If)
+			if !ok {
+				continue
+			}
+			bo, ok := iff.Cond.(*ssa.BinOp)
+			if !ok || (bo.Op != token.EQL && bo.Op != token.NEQ && bo.Op != token.GEQ && bo.Op != token.LSS) {
+				continue
+			}
+			hasSize, hasCount, zero := false, false, false
+			for x := range core.BackSlice(iff.Cond) {
+				if f := core.FieldOf(x); f != nil && f.Name() == "size" {
+					hasSize = true
+				}
+				if ex, ok := x.(*ssa.Extract); ok && ex.Index == 0 {
+					if call, ok := ex.Tuple.(*ssa.Call); ok {
+						if call.Common().IsInvoke() && call.Common().Method.Name() == "Read" {
+							hasCount = true
+						} else if cal := call.Common().StaticCallee(); cal != nil && (cal.Name() == "Read" || cal.Name() == "ReadFull" || cal.Name() == "ReadAll") {
+							hasCount = true
+						}
+					}
+				}
+			}
+			if k, isK := core.ConstIntValue(bo.Y); isK && k == 0 {
+				zero = true
+			}
+			eq := 0
+			if bo.Op == token.NEQ || bo.Op == token.LSS {
+				eq = 1
+			}
+			if hasSize && zero && core.EdgeDominates(blk, eq, rs.Ret.Block()) {
+				emptyOK = true
+			}
+			if hasSize && hasCount && core.EdgeDominates(blk, eq, rs.Ret.Block()) {
+				exact = true
+			}
+		}
+		// io.ReadFull on the path
+		for _, b := range fn.Blocks {
+			for _, in := range b.Instrs {
+				if cal := core.StaticCallee(in); cal != nil && cal.Pkg != nil && cal.Pkg.Pkg.Path() == "io" && (cal.Name() == "ReadFull" || cal.Name() == "ReadAll") && b.Dominates(rs.Ret.Block()) {
+					exact = true
+				}
+			}
+		}
+		switch {
+		case emptyOK:
+			c.Discharge("codec.readexact", key, rs.Ret.Pos(), "empty frame")
+		case exact:
+			c.Discharge("codec.readexact", key, rs.Ret.Pos(), "returns after the byte count reached the frame size")
+		default:
+			c.Report("codec.readexact", key, rs.Ret.Pos(), "Frame.Read can return successfully without having compared the number of bytes read with the frame size: a short read hands back a truncated value and the following frames are misread")
+		}
+	}
+	if n == 0 {
+		c.MissingAnchor("codec.readexact", "successful returns of Frame.Read")
 	}
 }
